@@ -268,7 +268,7 @@ def worker_e2e(rec, shard, nshards, length, two_marker_tps, all_positions, seed)
                               got_rows=got_rows, messages=[i.get("message", "")[:80] for i in temporal])
             # bystander: a row that fails its own validation and carries no marker, inserted anywhere, changes nothing for
             # the other rows (whether or not a failed row takes part in the bookkeeping - it has nothing to contribute)
-            if ok and any("delay" in k for k, _ in combo):
+            if ok and len(hist) <= 2 and any("delay" in k for k, _ in combo):
                 positions = range(len(srows) + 1) if all_positions else (len(srows),)
                 for p, btext in [(p, b) for p in positions for b in (("Zzqnonsense", "Red") if all_positions else ("Zzqnonsense",))]:
                     t_ins = (float(srows[p][0]) if p < len(srows) else float(srows[-1][0]) + 1.0)
